@@ -35,10 +35,13 @@ NAME_GROUPS = [
     ["\u00c4", "\u00e4", "Z", "z", "a", "\u00f6"],
     ["x.txt", "x.TXT", "X.txt", "x", "x.tx", "x.txt.bak"],
     ["\u540d", "\u524d", "a", "\u03c9", "\u03a9", "\u044f"],
+    ["\udcff", "a\udc80", "a", "\udc80b", "z", "\ud7ff"],      # file names that are not valid UTF-8 (surrogateescape)
+    ["a\nb", "a\\b", " a", "a ", "a\tb", "a'b", 'a"b'],          # control characters, quotes, backslash
+    ["n" * 80, "n" * 79 + "m", "n" * 79, "n"],                  # long names with a long common prefix
 ]
 for _g in NAME_GROUPS:
     assert len(set(_g)) == len(_g), _g
-ALL_NAMES = sorted({n for g in NAME_GROUPS for n in g})
+ALL_NAMES = sorted({n for g in NAME_GROUPS for n in g if len(n) < 50})
 
 
 def cps(s: str):
@@ -203,12 +206,15 @@ class Prop:
     run_fn = "run19"
     shard = 200
     rule = ("real temporary directories built from generated abstract directory values: every ordered forest shape with <= N "
-            "entries (N=4 quick, 6 thorough; inner nodes are folders, leaves files / empty folders / special files) x sort on/off, "
-            "plus seeded random directories up to 40 entries and depth 6; names drawn per folder from groups of sort-sensitive "
-            "names (upper/lower case, digits, '_', umlauts, composed/decomposed accents, astral vs BMP code points), sizes 0..5000 "
-            "bytes, mtimes in 1/8 s set by os.utime(ns=); each case = load_tree_from_fs + save to a real file + FileSystemTree.load; "
-            "separate cases for the FileSystemEntry constructor and the two mappers on arbitrary arguments.  "
-            "distinct = distinct (sort, directory value); non-trivial = some folder holds >= 2 entries (or a mapper case)")
+            "entries (N=4 quick, 6 thorough; inner nodes are folders, leaves files / empty folders / special files (FIFO, dangling "
+            "symlink)) x sort on/off, plus seeded random directories up to 40 entries, depth up to 12, folders up to 16 entries; "
+            "names drawn per folder from groups of sort-sensitive names (upper/lower case, digits, '_', umlauts, composed/decomposed "
+            "accents, astral vs BMP code points, names that are not valid UTF-8, control characters, long common prefixes), sizes "
+            "0..5000 bytes, mtimes in 1/8 s set by os.utime(ns=); each case = load_tree_from_fs (str or Path argument) + save to a "
+            "real file (path / stream / zip / explicit mappers) + FileSystemTree.load; for sort=False the model receives the listing "
+            "order observed with os.listdir, for sort=True the (shuffled) creation order; separate cases for the FileSystemEntry "
+            "constructor and the two mappers on arbitrary arguments.  distinct = distinct (sort, directory value); "
+            "non-trivial = some folder holds >= 2 entries (or a mapper case)")
     exhaustive_note = "all forest shapes <= N entries (N=4 quick) x every file/folder labelling of the leaves x sort on/off"
     assumptions = [
         "the OS, pathlib, json and zipfile are outside the model: Path.iterdir() returns each entry once in the order os.listdir shows "
